@@ -30,8 +30,26 @@ def main(argv=None):
         return int(mod.run() or 0)
     except SystemExit:
         raise
-    except Exception:
+    except Exception as ex:
         traceback.print_exc()
+        # An exception raised INSIDE the package under test on an input the check built from valid states is a verdict
+        # (the operation is not defined where the property needs it); anything else is a failure of the machinery.
+        from . import env
+        from .evidence import Check
+        tb = traceback.extract_tb(ex.__traceback__)
+        pkg = os.path.join(os.path.realpath(env.REPO), "phyclone") + os.sep
+        inner = tb[-1] if tb else None
+        from .tlc import TLCError
+        if inner is not None and os.path.realpath(inner.filename).startswith(pkg) and not isinstance(ex, TLCError):
+            ck = Check(pid)
+            where = "%s:%s" % (os.path.basename(inner.filename), inner.name)
+            ck.rule = "aborted by an exception of the implementation"
+            ck.violation("%s|uncaught_exception:%s@%s" % (pid, type(ex).__name__, where),
+                         "the implementation raised %s: %s (in %s) while the check was exercising it" % (type(ex).__name__, ex, where),
+                         {"traceback": traceback.format_exc()[-3000:]})
+            ck.samples = [{"exception": "%s: %s" % (type(ex).__name__, ex)}]
+            ck.states = ck.transitions = 1
+            return ck.finish()
         print("MACHINERY-FAILURE property=%s" % pid)
         return 2
 
